@@ -98,8 +98,14 @@ fn parse_input(mode: &str, bytes: &[u8]) -> Result<Zone, String> {
     }
 }
 
+/// Location of a panic, relative to the crate it happened in (`src/...:line`), so that
+/// signatures do not depend on where the repository is checked out.
 fn panic_loc(p: &str) -> String {
-    p.rsplit(" @ ").next().unwrap_or("").to_string()
+    let loc = p.rsplit(" @ ").next().unwrap_or("");
+    match loc.rfind("/src/") {
+        Some(i) => loc[i + 1..].to_string(),
+        None => loc.to_string(),
+    }
 }
 
 /// Totality sweep: every query on an accepted zone returns (Ok or Err), never panics.
